@@ -106,6 +106,43 @@ open Model.Session in
 example : (body ⟨[], none, false⟩ ⟨[], none, []⟩ { user := some 0, logged := true, passive := true, dataConn := true } .abor [] ⟨1, []⟩ []).2.1.dataConn = true := by
   simp [body]
 
+/-! ### several transfers under way, one ABOR -/
+
+/-- **abor_stops_every_transfer.**  With any number of workers in the session, at any positions: every unfinished one
+    is interrupted and answers 426 then 226 (so the replies are that pair once per unfinished worker, in order), the
+    session stays alive; with no unfinished worker the answer is the single 226. -/
+theorem abor_stops_every_transfer (v : Verb) (hv : v ∈ transferVerbs) (ps : List Pos) :
+    (aborMany v.workerGuards ps).alive = true ∧
+    (aborMany v.workerGuards ps).replies =
+      (if (ps.filter Pos.live).isEmpty then [226] else (ps.filter Pos.live).flatMap (fun _ => [426, 226])) := by
+  have hg := worker_stacks v hv
+  have hlive : ∀ p : Pos, p.live = true → abor v.workerGuards p = ⟨[426, 226], true⟩ := by
+    intro p hp
+    have := abor_answered v hv p
+    cases p <;> simp [Pos.live] at hp <;> simpa [wanted] using this
+  unfold aborMany
+  by_cases he : (ps.filter Pos.live).isEmpty = true
+  · have hc : aborCountsFinished = false := by decide
+    simp [he, hc]
+  · simp only [he, if_false, Bool.false_eq_true]
+    constructor
+    · rw [List.all_eq_true]
+      intro p hp
+      rw [hlive p (List.mem_filter.mp hp).2]
+    · have hcongr : ∀ (l : List Pos), (∀ p ∈ l, p.live = true) →
+          l.flatMap (fun p => (abor v.workerGuards p).replies) = l.flatMap (fun _ => [426, 226]) := by
+        intro l
+        induction l with
+        | nil => intro _; rfl
+        | cons a t ih =>
+          intro h
+          simp only [List.flatMap_cons]
+          rw [hlive a (h a (by simp)), ih (fun b hb => h b (List.mem_cons_of_mem _ hb))]
+      exact hcongr _ (fun p hp => (List.mem_filter.mp hp).2)
+
+/-- two downloads under way: both stopped, two pairs of replies -/
+example : (aborMany Verb.retr.workerGuards [.inBody, .none, .waitData]).replies = [426, 226, 426, 226] := by decide
+
 /-! ### the client's half: `Client.abort()` against any spelling of the two replies -/
 
 /-- **client_abort_reads_exactly_its_replies.**  `Client.abort()` is `command("ABOR", "226", "426")`: replies that match
